@@ -39,6 +39,9 @@ def _worker_init(module_name: str):
         import ahbicht.content_evaluation  # noqa: F401  (import order: avoids the circular import of the resolver)
 
         _MOD = importlib.import_module(module_name)
+        from vf import xs
+
+        xs.install_real_lru_patch()
     except BaseException as e:  # pylint:disable=broad-except
         _INIT_ERROR = f"{type(e).__name__}: {e}\n{traceback.format_exc()[-2500:]}"
 
@@ -75,6 +78,7 @@ def _worker_job(job: Dict[str, Any]) -> Dict[str, Any]:
             setattr(mod, k, v)
         fn = getattr(mod, job["fn"])
         xs.TWIN = False
+        xs.REAL_LRU = False
         xs.REACHED = 0
         xs.FAILS.clear()
         xs.NOTES.clear()
